@@ -5,4 +5,3 @@ INVARIANT C19_Conf_TableCreated
 INVARIANT C19_Conf_ZLayout
 INVARIANT C19_Conf_ZWeights
 INVARIANT C19_Conf_CountCheck
-INVARIANT C19_Conf_AltSuccess
